@@ -15,7 +15,7 @@ def run(model, res, tier):
     c = ctxmod.get(model)
     g = c.grammar
     res.explanation = (
-        'R1/R2 regex-AST queries: the whitespace token covers space/tab/CR/LF, is tried first and returns no token; no other token but '
+        'R1/R2 regex-AST queries: the whitespace token covers space/tab/CR/LF/FF/VT, is tried first and returns no token; no other token but '
         'the quoted string can match text containing whitespace after its first character. R3 list-shape abstract interpretation of the '
         'three separator actions, one run per production alternative with the argument values opaque (unknown tag): on every trace the '
         'value is exactly the slot shape obtained by splitting the right-hand side at separators (an empty segment is a blank), so the '
@@ -70,10 +70,10 @@ def _r1_r2(model, res, g):
         res.violation('R1', 'lexer:no-whitespace-token', lm.relpath, 'no token matches space, tab and newline: whitespace between tokens is a lexing error')
         return
     T = rx.build(ws.regex)
-    S = rx.build(r'[ \t\r\n]+')
+    S = rx.build(r'[ \t\r\n\f\v]+')     # the ASCII whitespace characters: every reading of "whitespace" includes them
     al = rx.alphabet([T, S])
     w = rx.difference_witness(S, T, al)
-    res.ob('R1', 'lexer:t_' + ws.name, 'covers every run of space/tab/CR/LF', w is None, repr(w))
+    res.ob('R1', 'lexer:t_' + ws.name, 'covers every run of space/tab/CR/LF/FF/VT', w is None, repr(w))
     if w is not None:
         res.violation('R1', 'lexer:t_%s:coverage' % ws.name, lm.where(ws.node), 'the whitespace token does not match %r' % w, func='t_' + ws.name)
     ok = ws.order == 0 and ws.is_func
